@@ -370,6 +370,27 @@ theorem runDisjPass_noPanic (hook : Schemas → Schema → DisjHook) (p : Ty →
   exact visitSchemaPure_noPanic _ s (dvTy_noPanic _ p (hh cur s hs hc) _ he)
     (fun ko hko => dvTy_noPanic _ p (hh cur s hs hc) _ (ho ko hko))
 
+/-! ### per-schema node predicates (the predicate may look objects up in the schema being visited) -/
+
+def allSchemasS (p : Schema → Ty → Bool) (S : Schemas) : Bool :=
+  S.all fun s => allTy (p s) s.entryPointType && s.objects.all (fun ko => allTy (p s) ko.2.ty)
+
+theorem allSchemasS_mem (p : Schema → Ty → Bool) (S : Schemas) (h : allSchemasS p S = true) :
+    ∀ s ∈ S, allTy (p s) s.entryPointType = true ∧ ∀ ko ∈ s.objects, allTy (p s) ko.2.ty = true := by
+  intro s hs
+  simp only [allSchemasS, List.all_eq_true, Bool.and_eq_true] at h
+  exact h s hs
+
+theorem runDisjPass_noPanicS (hook : Schemas → Schema → DisjHook) (p : Schema → Ty → Bool) (ss : Schemas)
+    (hall : allSchemasS p ss = true)
+    (hh : ∀ cur s, s ∈ ss → s ∈ cur → ∀ bs i m, p s (.disj bs i m) = true → isPanic (hook cur s bs i m) = false) :
+    isPanic (runDisjPass hook ss) = false := by
+  apply visitSchemas_noPanic
+  intro cur s hs hc
+  obtain ⟨he, ho⟩ := allSchemasS_mem p ss hall s hs
+  exact visitSchemaPure_noPanic _ s (dvTy_noPanic _ (p s) (hh cur s hs hc) _ he)
+    (fun ko hko => dvTy_noPanic _ (p s) (hh cur s hs hc) _ (ho ko hko))
+
 theorem mapM_noPanic {α β : Type} (f : α → Outcome β) : ∀ l : List α,
     (∀ a ∈ l, isPanic (f a) = false) → isPanic (Outcome.mapM f l) = false
   | [], _ => rfl
